@@ -9,6 +9,7 @@ import (
 	"os/exec"
 	"path"
 	"strings"
+	"time"
 
 	"pdverif/internal/res"
 )
@@ -63,9 +64,45 @@ func Supervise(isChild bool, prop string, seed uint64, tier, out string, fn func
 	var errb bytes.Buffer
 	cmd.Stdout = os.Stdout
 	cmd.Stderr = io.MultiWriter(&tailWriter{max: 1 << 16, buf: &errb}, os.Stderr)
-	err := cmd.Run()
+	if err := cmd.Start(); err != nil {
+		fmt.Fprintln(os.Stderr, err)
+		os.Exit(2)
+	}
+	// watchdog: every operation is journalled before it runs and takes milliseconds; a journal that stops growing for a
+	// minute means the real code does not return from the last journalled operation (or loops): kill and report it
+	hung := make(chan struct{})
+	stop := make(chan struct{})
+	go func() {
+		last, since := int64(-1), time.Now()
+		for {
+			select {
+			case <-stop:
+				return
+			case <-time.After(2 * time.Second):
+			}
+			var sz int64
+			if fi, e := os.Stat(oplog); e == nil {
+				sz = fi.Size()*1000003 + fi.ModTime().UnixNano()%1000003
+			}
+			if sz != last {
+				last, since = sz, time.Now()
+			} else if time.Since(since) > 60*time.Second {
+				close(hung)
+				cmd.Process.Kill()
+				return
+			}
+		}
+	}()
+	err := cmd.Wait()
+	close(stop)
 	if err == nil {
 		os.Exit(0)
+	}
+	kind := "implementation-crashed"
+	select {
+	case <-hung:
+		kind = "implementation-hung"
+	default:
 	}
 	// the child died: the journal holds the case that was running
 	raw, _ := os.ReadFile(oplog)
@@ -107,8 +144,9 @@ func Supervise(isChild bool, prop string, seed uint64, tier, out string, fn func
 	R := res.New(prop, seed, tier)
 	R.Rule = "the driver process died while the real code ran the journalled case (the last operation of the replay is the one that did not return)"
 	R.Evaluations = 1
-	R.Violate(prop+":implementation-crashed:"+where,
-		fmt.Sprintf("the real code killed the driver process (%v; %s) while running operation %d of the replayed case", err, first, len(ops)), replay)
+	R.Violate(prop+":"+kind+":"+where,
+		map[bool]string{true: fmt.Sprintf("the real code did not return within 60 s from operation %d of the replayed case (driver child killed)", len(ops)),
+			false: fmt.Sprintf("the real code killed the driver process (%v; %s) while running operation %d of the replayed case", err, first, len(ops))}[kind == "implementation-hung"], replay)
 	if werr := R.Write(path.Join(out, "result.json")); werr != nil {
 		fmt.Fprintln(os.Stderr, werr)
 		os.Exit(2)
